@@ -520,6 +520,23 @@ class Prog:
     def enum_variants(self, adt_path):
         return [(v['name'], v.get('discr')) for v in self.adts[adt_path]['variants']]
 
+    def creators_of(self, cbody):
+        """the bodies in which the closure `cbody` is created: its parent, or - when the parent is a helper that was inlined away - the
+        functions it was inlined into"""
+        out, seen, work = [], set(), [cbody.parent]
+        while work:
+            p = work.pop()
+            if p in seen or p is None:
+                continue
+            seen.add(p)
+            b = self.bodies.get(p)
+            if b is not None:
+                out.append(b)
+                continue
+            for k in getattr(self, 'inlined_into', {}).get(p, ()):
+                work.append(k)
+        return out
+
     def closures_of(self, parent_path):
         parents = {parent_path}
         hp = getattr(self, 'helper_paths', {})
